@@ -103,7 +103,8 @@ def _run_one(args):
 
 
 def gen_inputs(ctx, n):
-    out = [d for d, c in c01.WITNESS]
+    out = [d for d, c in c01.WITNESS] + [d for d, c in c01.table_inputs(ctx)]
+    n += len(out)
     rs = list(corpus.repo_strings())
     ctx.rng.shuffle(rs)
     out += rs[: n // 4]
